@@ -276,7 +276,8 @@ def same_call(a: dict | None, b: dict | None) -> bool:
 
 
 def map_histories(ctx: Ctx, rng: random.Random) -> list[dict]:
-    """EXTENSION POINT for the map side of C09 (not built): histories containing Pipeline.map runs."""
+    """The map side of C09 lives in c09_map.py (its histories are MapRun traces validated by TraceMapRun, a different
+    trace specification), called at the end of run(); nothing is added to the call-side traces here."""
     return []
 
 
@@ -518,6 +519,9 @@ def run(ctx: Ctx) -> None:
     selftests(ctx)
     phase["trace_validation_and_selftest"] = round(time.time() - t0, 1)
     ctx.extra["phase_wall_s"] = phase
+
+    from . import c09_map
+    c09_map.run(ctx)
 
 
 def replay(rep: dict) -> int:
